@@ -29,16 +29,18 @@ func init() {
 		ID:    "C18",
 		Level: "exploration",
 		Rule: "failing programs: generated core programs with a buried ill-typed / wrong-arity / unbound / error form (every position class the generator reaches: argument, operator position, binding initialiser, body, handler expression and body, callbacks of map/foldl/select, nested call depth), and macro templates (failing form written in the template vs built by the macro without position), rendered with random layout (newlines, indentation, comments) so spans move; " +
+			"the family 'handler work before rethrow' puts handlers between the failing form of any of those programs and the host (top-level forms and function bodies wrapped in handler-bind) whose handlers do work before (rethrow) - a nested handler-bind whose body succeeds / whose own binding handles its error / whose error matches no binding and is swallowed by ignore-errors, a helper that uses handler-bind, tail loops, a nested rethrow that is caught or ignored - as the last form, under progn/let/if, through several layers, or from a handler nested up to three deep inside running handlers that failed anew; the host's error keeps location, trace, condition and (for `error`) data; " +
 			"distinct_nontrivial counts distinct (error class, innermost three frame kinds, position-in-source class) signatures",
 		Assumptions: []string{
 			"a function call is active from application (after its arguments were evaluated); special operators are active while their sub-forms run; a macro only during expansion",
 			"site classes judged: unbound symbol -> the symbol; error / argument rejection by a function or operator -> the call expression; template-written forms keep their position; forms a macro builds without position take the macro call site. Other error classes (head not a function, malformed special forms, errors under thread-first/last whose calls are built without position) must lie inside the source and inside the failing top-level form, nothing more",
+			"docs/lang.md 'Rethrowing Errors': (rethrow) re-raises the error the innermost running handler was called with, with its original trace and condition data, whatever handler-bind / ignore-errors forms began and ended while that handler ran; a changed condition is blamed on the handlers' work only when a control (same handlers, work left out) delivers the model's condition",
 			"a callee invoked by a builtin function on the program's behalf (callbacks of map, foldl, select, funcall, apply, stable-sort, ...) is called from that builtin's call expression, with and without elimination; for handlers and for all?/any? (which evaluate a call expression they build themselves, without position) only the callee's order and name are compared",
 		},
-		Cases:       func(tier string) int { return pick(tier, 16000, 500000) },
+		Cases:       func(tier string) int { return c18BaseCases(tier) + pick(tier, 2400, 80000) },
 		Run:         c18Run,
 		Init:        c18Init,
-		MinDistinct: func(tier string) int { return pick(tier, 250, 700) },
+		MinDistinct: func(tier string) int { return pick(tier, 800, 1400) },
 	})
 }
 
@@ -110,7 +112,19 @@ var c18BehalfCallers = map[string]bool{"map": true, "foldl": true, "foldr": true
 // callee's call site is not judged there
 var c18UnpositionedCallbacks = map[string]bool{"all?": true, "any?": true, "handler-bind": true}
 
-func c18Program(w *fw.W, idx int) ([]*sx.N, string, map[string]bool) {
+// c18Cases: the base families fill the first c18BaseCases indices, the family
+// "handler work before rethrow" (c18_handlerwork.go) the rest.
+func c18BaseCases(tier string) int { return pick(tier, 16000, 500000) }
+
+func c18Program(w *fw.W, idx int) ([]*sx.N, string, map[string]bool, *c18HW) {
+	if idx >= c18BaseCases(w.Tier) {
+		return c18HandlerWorkProgram(w, idx, false)
+	}
+	forms, label, feats := c18BaseProgram(w, idx)
+	return forms, label, feats, nil
+}
+
+func c18BaseProgram(w *fw.W, idx int) ([]*sx.N, string, map[string]bool) {
 	r := w.RNG(idx, "prog")
 	if idx%5 == 4 {
 		return c18MacroProgram(r), "macro-template", map[string]bool{"macro-template": true}
@@ -217,8 +231,17 @@ func c18MacroProgram(r *fw.RNG) []*sx.N {
 }
 
 func c18Run(w *fw.W, idx int) {
-	forms, label, feats := c18Program(w, idx)
+	forms, label, feats, hw := c18Program(w, idx)
 	src := sx.Render(forms, c01Layout(w.RNG(idx, "layout")))
+	// finding keys of the family "handler work before rethrow" name the class of
+	// work and of terminal its handlers were built with
+	rethrown := false
+	key := func(k string) string {
+		if hw != nil && rethrown {
+			return k + hw.suffix()
+		}
+		return k
+	}
 
 	in := refint.New()
 	_, merr := func() (mv *refint.V, me *refint.Err) {
@@ -249,14 +272,37 @@ func c18Run(w *fw.W, idx int) {
 		w.Count("skipped_let*_shared_scope_changes_the_failure", 1)
 		return
 	}
-	off := rt.New(rt.Opts{MaxSteps: 400_000, Debugger: true, MaxPhys: 4000})
+	rethrown = merr.Rethrown > 0
+	offOpts := rt.Opts{MaxSteps: 400_000, Debugger: true, MaxPhys: 4000}
+	onOpts := rt.Opts{MaxSteps: 400_000, MaxPhys: 4000}
+	off := rt.New(offOpts)
 	voff := off.Env.LoadString("c18", src)
 	c18ElideLog = map[c18Elided]bool{}
-	on := rt.New(rt.Opts{MaxSteps: 400_000, MaxPhys: 4000})
+	on := rt.New(onOpts)
 	von := on.Env.LoadString("c18", src)
 	elided := c18ElideLog
 	c18ElideLog = nil
 	w.Eval(2)
+	if hw != nil && rethrown {
+		// the model says the error the host receives was re-raised by (rethrow) in a
+		// handler that had done some work first: it keeps its condition
+		for _, m := range []struct {
+			mode string
+			v    *lisp.LVal
+			o    rt.Opts
+		}{{"elimination off", voff, offOpts}, {"elimination on", von, onOpts}} {
+			if m.v.Type == lisp.LError && m.v.Str == merr.Cond {
+				continue
+			}
+			if changed, ctl := c18HWConditionChanged(w, idx, merr, m.o); changed {
+				w.Violation(key("rethrown-condition-changed:"+merr.Class),
+					fmt.Sprintf("the host receives %s (%s) although the handlers rethrow the error %s raised by %s: without the work the handlers do before (rethrow) it receives that error", trunc(m.v.String(), 100), m.mode, merr.Cond, trunc(c01Site(merr), 60)),
+					fmt.Sprintf("source:\n%s\nreal (%s): %s\n  stack %s\nmodel: %v at %s\n  chain %s\n%s", src, m.mode, m.v, c18ChainString(c18RealChain(m.v)), merr, c01Site(merr), c18ModelChain(merr), ctl))
+				return
+			}
+			break
+		}
+	}
 	if voff.Type != lisp.LError || von.Type != lisp.LError || voff.Str != merr.Cond {
 		// outcome disagreements are C01's business
 		w.Count("outcome_disagrees_with_model", 1)
@@ -267,6 +313,23 @@ func c18Run(w *fw.W, idx int) {
 			src, voff, c18ChainString(c18RealChain(voff)), von, c18ChainString(c18RealChain(von)), merr, c01Site(merr), c18ModelChain(merr))
 	}
 	w.Logf("%s", detail())
+
+	// ---- 0. a rethrown error signalled by `error` keeps its data ---------------------------
+	if rethrown && merr.Class == "user" {
+		for _, v := range []*lisp.LVal{voff, von} {
+			if v.Str != merr.Cond {
+				continue
+			}
+			if d := c18DataDiff(v, merr); d != "" {
+				w.Violation(key("rethrown-data-changed"), "after rethrow "+d, detail())
+				return
+			}
+		}
+		w.Count("rethrown_data_compared", 1)
+	}
+	if rethrown {
+		w.Count("rethrown_errors_compared", 1)
+	}
 
 	// ---- 1. location ----------------------------------------------------------------
 	loc, has := voff.Source()
@@ -279,30 +342,30 @@ func c18Run(w *fw.W, idx int) {
 	judged := (merr.Class == "unbound" || merr.Class == "user" || merr.Class == "type" || merr.Class == "arity" || merr.Class == "range" || merr.Class == "host-fail") && !underThread && merr.Site != nil
 	if !has {
 		if judged {
-			w.Violation("error-without-location:"+merr.Class, "an error raised while loading parsed source carries no location", detail())
+			w.Violation(key("error-without-location:"+merr.Class), "an error raised while loading parsed source carries no location", detail())
 			return
 		}
 	} else {
 		if loc.Pos < 0 || loc.Pos > len(src) || (loc.EndPos > len(src)) {
-			w.Violation("error-location-outside-source", fmt.Sprintf("location %d..%d is outside the %d-byte source", loc.Pos, loc.EndPos, len(src)), detail())
+			w.Violation(key("error-location-outside-source"), fmt.Sprintf("location %d..%d is outside the %d-byte source", loc.Pos, loc.EndPos, len(src)), detail())
 			return
 		}
 		if judged {
 			s := merr.Site
 			if loc.Pos != s.Pos || loc.Line != s.Line || loc.Col != s.Col {
-				w.Violation("error-location-wrong:"+merr.Class,
+				w.Violation(key("error-location-wrong:"+merr.Class),
 					fmt.Sprintf("error located at %d:%d (offset %d) but the failing form %s is at %d:%d (offset %d)", loc.Line, loc.Col, loc.Pos, trunc(s.String(), 60), s.Line, s.Col, s.Pos), detail())
 				return
 			}
 			if s.K == sx.List && loc.EndPos != 0 && loc.EndPos != s.End {
-				w.Violation("error-location-end-wrong:"+merr.Class, fmt.Sprintf("error span ends at offset %d, the failing form ends at %d", loc.EndPos, s.End), detail())
+				w.Violation(key("error-location-end-wrong:"+merr.Class), fmt.Sprintf("error span ends at offset %d, the failing form ends at %d", loc.EndPos, s.End), detail())
 				return
 			}
 		}
 	}
 	// with elimination on the judged classes must be located at the same form
 	if l2, h2 := von.Source(); judged && has && (!h2 || l2.Pos != loc.Pos || l2.Line != loc.Line || l2.Col != loc.Col) {
-		w.Violation("error-location-wrong-with-elimination:"+merr.Class,
+		w.Violation(key("error-location-wrong-with-elimination:"+merr.Class),
 			fmt.Sprintf("with tail-call elimination the error is located at %d:%d, without at %d:%d (the failing form)", l2.Line, l2.Col, loc.Line, loc.Col), detail())
 		return
 	}
@@ -311,7 +374,7 @@ func c18Run(w *fw.W, idx int) {
 	real := c18RealChain(voff)
 	model := merr.Stack
 	if len(real) != len(model) {
-		w.Violation("stack-trace-length:"+merr.Class, fmt.Sprintf("stack trace has %d frames, %d calls were active", len(real), len(model)), detail())
+		w.Violation(key("stack-trace-length:"+merr.Class), fmt.Sprintf("stack trace has %d frames, %d calls were active", len(real), len(model)), detail())
 		return
 	}
 	for i := range real {
@@ -319,14 +382,14 @@ func c18Run(w *fw.W, idx int) {
 		rf := real[i]
 		wantName := mf.Name
 		if rf.name != wantName && !(wantName == "" && rf.name == "") && !(mf.Fn != nil && mf.Fn.Bound[rf.name]) {
-			w.Violation("stack-trace-frame-name:"+merr.Class, fmt.Sprintf("frame %d (innermost first) is %q, the active call there is %q", i, rf.name, wantName), detail())
+			w.Violation(key("stack-trace-frame-name:"+merr.Class), fmt.Sprintf("frame %d (innermost first) is %q, the active call there is %q", i, rf.name, wantName), detail())
 			return
 		}
 		behalf := mf.Site == nil
 		if !behalf && !underThread {
 			want := fmt.Sprintf("%d:%d", mf.Site.Line, mf.Site.Col)
 			if rf.loc != want {
-				w.Violation("stack-trace-call-site:"+merr.Class, fmt.Sprintf("frame %d (%s) has call site %s, the call is written at %s", i, rf.name, rf.loc, want), detail())
+				w.Violation(key("stack-trace-call-site:"+merr.Class), fmt.Sprintf("frame %d (%s) has call site %s, the call is written at %s", i, rf.name, rf.loc, want), detail())
 				return
 			}
 		}
@@ -336,7 +399,7 @@ func c18Run(w *fw.W, idx int) {
 			if cf := model[ci]; cf.Kind == refint.FnFunction && cf.Site != nil && c18BehalfCallers[cf.Name] && !c18UnpositionedCallbacks[cf.Name] {
 				want := fmt.Sprintf("%d:%d", cf.Site.Line, cf.Site.Col)
 				if rf.loc != want {
-					w.Violation("stack-trace-callback-site:"+merr.Class, fmt.Sprintf("frame %d (%s, called back by %s) has call site %s, the %s expression is written at %s", i, rf.name, cf.Name, rf.loc, cf.Name, want), detail())
+					w.Violation(key("stack-trace-callback-site:"+merr.Class), fmt.Sprintf("frame %d (%s, called back by %s) has call site %s, the %s expression is written at %s", i, rf.name, cf.Name, rf.loc, cf.Name, want), detail())
 					return
 				}
 				w.Count("callback_sites_compared", 1)
@@ -353,7 +416,7 @@ func c18Run(w *fw.W, idx int) {
 		behalf := model[len(model)-1-i].Site == nil
 		if j < len(ron) && ron[j].name == f.name && (ron[j].loc == f.loc || behalf) {
 			if ron[j].loc != f.loc && !underThread {
-				w.Violation("stack-trace-callback-site-with-elimination:"+merr.Class,
+				w.Violation(key("stack-trace-callback-site-with-elimination:"+merr.Class),
 					fmt.Sprintf("with elimination on the called-back frame %s has call site %s, without %s", f.name, ron[j].loc, f.loc), detail())
 				return
 			}
@@ -364,13 +427,13 @@ func c18Run(w *fw.W, idx int) {
 			continue
 		}
 		if !elided[c18Elided{f.name, f.loc}] {
-			w.Violation("stack-trace-frame-dropped:"+merr.Class,
+			w.Violation(key("stack-trace-frame-dropped:"+merr.Class),
 				fmt.Sprintf("with elimination on the frame %s@%s is missing although no tail elision collapsed it", f.name, f.loc), detail())
 			return
 		}
 	}
 	if j != len(ron) {
-		w.Violation("stack-trace-extra-frames-with-elimination", "the elimination-on trace is not a subsequence of the elimination-off trace", detail())
+		w.Violation(key("stack-trace-extra-frames-with-elimination"), "the elimination-on trace is not a subsequence of the elimination-off trace", detail())
 		return
 	}
 	kinds := ""
@@ -388,6 +451,9 @@ func c18Run(w *fw.W, idx int) {
 		}
 	}
 	w.CoverKey(fmt.Sprintf("%s|%s|%s|%s|depth=%d", label, merr.Class, kinds, posClass, len(real)/3))
+	if hw != nil {
+		w.CoverKey(fmt.Sprintf("handler-work|%s|%s|%s|rethrown=%d", hw.kind, hw.term, merr.Class, min(merr.Rethrown, 4)))
+	}
 	for f := range feats {
 		if strings.HasPrefix(f, "hostile:") {
 			w.CoverKey("hostile|" + f + "|" + merr.Class)
